@@ -63,7 +63,7 @@ def gen_directed(rng, syms):
     sym = rng.choice(syms)
     a = ('lit', Lit(str(rng.randrange(1, 999)), rng.choice([0, 2]), sym))
     tiny = ('bin', '/', ('lit', Lit(str(rng.randrange(1, 9)), 2, sym)), ('lit', Lit(str(rng.randrange(300, 99999)), 0, None)))
-    k = rng.randrange(9)
+    k = rng.randrange(13)
     other = ('lit', Lit(str(rng.randrange(1, 99)), 0, rng.choice([s for s in syms if s != sym] or syms)))
     grown = ('bin', '*', a, ('lit', Lit('1001', 3, None)))           # a * 1.001: more decimals than displayed
     if k == 6:
@@ -74,6 +74,23 @@ def gen_directed(rng, syms):
         return ('bin', '==', ('bin', '+', ('bin', '-', b, a), a), b)
     if k == 8:
         return ('bin', '+', ('bin', '+', other, a), ('bin', '/', ('lit', Lit(str(rng.randrange(1, 9)), 2, sym)), ('lit', Lit('700', 0, None))))
+    if k in (9, 10, 11, 12):
+        # ordering at the boundary: a BALANCE-typed value (an amount plus a plain zero, or two commodities) against an
+        # amount or plain number that equals one of its components exactly, or lies just beside it
+        la = a[1]
+        same = ('lit', Lit(la.digits, la.decimals, la.sym if k == 9 else None, braced=rng.random() < 0.3))
+        near = ('lit', Lit(str(int(la.digits) + rng.choice([-1, 1])), la.decimals, la.sym if k == 9 else None))
+        rhs = same if rng.random() < 0.6 else near
+        if k in (9, 10):
+            lhs = ('bin', '+', a, rng.choice([('int', 0), ('lit', Lit('0', 0, None)), ('bin', '-', other, other)]))
+        elif k == 11:
+            lhs = ('bin', '+', a, other)
+        else:
+            lo = other[1]
+            lhs = ('bin', '+', a, other)
+            rhs = ('lit', Lit(lo.digits, lo.decimals, None)) if rng.random() < 0.5 else rhs
+        op = rng.choice(CMPOPS)
+        return ('bin', op, lhs, rhs) if rng.random() < 0.7 else ('bin', op, rhs, lhs)
     if k == 0:
         return ('bin', '/', a, tiny)
     if k == 1:
@@ -220,8 +237,20 @@ def oeval(t):
             raise Skip()
         c = ca if ca is not None else cb
         return ('num', ostrip({c: (qa * qb if op == '*' else qa / qb)}), 'amt')
-    # comparisons: only single-commodity, commodity-compatible operands are determined
+    # comparisons: only single-commodity, commodity-compatible operands are determined ...
     if len(da) > 1 or len(db) > 1:
+        # ... and a multi-commodity balance against a plain number, where every component stands on the same side of it
+        flip = {'<': '>', '>': '<', '<=': '>=', '>=': '<='}
+        if len(db) > 1 and len(da) <= 1 and op in flip:
+            da, db, op = db, da, flip[op]
+        if op in flip and len(db) <= 1 and (not db or None in db):
+            n = next(iter(db.values()), F(0))
+            qs = list(da.values())
+            for name, f in (('<', lambda q: q < n), ('>', lambda q: q > n), ('<=', lambda q: q <= n), ('>=', lambda q: q >= n)):
+                if all(f(q) for q in qs) and op == name:
+                    return ('bool', True)
+                if all(f(q) for q in qs) and op == {'<': '>=', '>=': '<', '>': '<=', '<=': '>'}[name]:
+                    return ('bool', False)
         raise Skip()
     ca_s, cb_s = comms(t[2]), comms(t[3])
     if len((ca_s | cb_s) - {None}) > 1:
